@@ -2,8 +2,15 @@ package oidc
 
 import (
 	"context"
+	"encoding/json"
+	"net/http"
+	"net/http/httptest"
+	"sync"
+	"time"
 
 	"github.com/lestrrat-go/jwx/v2/jwk"
+
+	"github.com/istio-ecosystem/authservice/internal"
 
 	configv1 "github.com/istio-ecosystem/authservice/config/gen/go/v1"
 	oidcv1 "github.com/istio-ecosystem/authservice/config/gen/go/v1/oidc"
@@ -12,6 +19,7 @@ import (
 
 func init() {
 	verifHarnesses["VerifC02_KeySourceHonoursTheFiltersConfiguration"] = VerifC02_KeySourceHonoursTheFiltersConfiguration
+	verifHarnesses["VerifC02_FetchedKeySetIsTheFiltersOwnAndKeptCurrent"] = VerifC02_FetchedKeySetIsTheFiltersOwnAndKeptCurrent
 }
 
 // VerifC02_KeySourceHonoursTheFiltersConfiguration: the real key-set provider (one per process,
@@ -47,4 +55,103 @@ func VerifC02_KeySourceHonoursTheFiltersConfiguration() {
 		check("first-again", b, kb)
 	}
 	vn.Cover("C02/key-source-audited", true)
+}
+
+// VerifC02_FetchedKeySetIsTheFiltersOwnAndKeptCurrent: the fetcher arm of the real key-set
+// provider. "A valid signature under the filter's configured key set" presupposes that the set in
+// use is the one published at THAT filter's jwks_uri and that it is no staler than the filter's
+// periodic_fetch_interval_sec (default 1200 s): a key the provider has withdrawn stops validating
+// tokens within that interval whatever caching headers the endpoint sends.
+//
+// Symbolically the jwx auto-refresh cache is a contract stub (see the engine's jwk.Cache model):
+// the harness runs the real start-up (ServeContext) and the real Get for two filters in either
+// order and checks what the provider registers with the cache -- each filter's own URL, with
+// WithRefreshInterval(exactly its interval) and no header-driven schedule, through an HTTP client,
+// polled with a window no longer than any filter's interval -- and that each filter is handed the
+// set fetched from its own URL. Natively (replay) the same label is decided by the real cache
+// against a real endpoint that sends Cache-Control: max-age=3600 and then replaces its key.
+func VerifC02_FetchedKeySetIsTheFiltersOwnAndKeptCurrent() {
+	if !vn.Symbolic() {
+		nativeC02FetchedKeySetKeptCurrent()
+		return
+	}
+	mk := func(n, uri string) *oidcv1.OIDCConfig {
+		return &oidcv1.OIDCConfig{ClientId: n, JwksConfig: &oidcv1.OIDCConfig_JwksFetcher{JwksFetcher: &oidcv1.OIDCConfig_JwksFetcherConfig{
+			JwksUri: uri, PeriodicFetchIntervalSec: uint32(vn.Int(n+"-fetch-interval-s", 0, 4294967295))}}}
+	}
+	a, b := mk("a", "https://idp-a/keys"), mk("b", "https://idp-b/keys")
+	cfg := &configv1.Config{Chains: []*configv1.FilterChain{
+		{Name: "a", Filters: []*configv1.Filter{{Type: &configv1.Filter_Oidc{Oidc: a}}}},
+		{Name: "b", Filters: []*configv1.Filter{{Type: &configv1.Filter_Oidc{Oidc: b}}}},
+	}}
+	ctx := context.Background()
+	p := NewJWKSProvider(cfg, internal.NewTLSConfigPool(ctx))
+	stopped, stop := context.WithCancel(ctx)
+	stop()
+	_ = p.ServeContext(stopped) // start-up: creates the cache and signals readiness, then returns at once
+	want := func(f *oidcv1.OIDCConfig) time.Duration {
+		if s := f.GetJwksFetcher().GetPeriodicFetchIntervalSec(); s != 0 {
+			return time.Duration(s) * time.Second
+		}
+		return 1200 * time.Second
+	}
+	check := func(label string, f *oidcv1.OIDCConfig) {
+		uri := f.GetJwksFetcher().GetJwksUri()
+		got, err := p.Get(ctx, f)
+		vn.Assert("C02/fetched-key-set-is-the-filter's-own:"+label, vn.And(err == nil, vn.SameKeySet(got, vn.FetchedKeySet(uri))))
+		iv, has := vn.JWKCacheOption(p.cache, uri, "RefreshInterval")
+		_, headerDriven := vn.JWKCacheOption(p.cache, uri, "MinRefreshInterval")
+		_, client := vn.JWKCacheOption(p.cache, uri, "HTTPClient")
+		window, hasWindow := vn.JWKCacheOption(p.cache, "", "RefreshWindow")
+		vn.Assert("C02/fetched-key-set-kept-current:"+label, vn.And(has, iv == want(f), !headerDriven, client, hasWindow, window <= want(f), window > 0))
+	}
+	if vn.Choice("order", 2) == 0 {
+		check("first", a)
+		check("second", b)
+		check("first-again", a)
+	} else {
+		check("first", b)
+		check("second", a)
+		check("first-again", b)
+	}
+	vn.Cover("C02/fetcher-audited", true)
+}
+
+// nativeC02FetchedKeySetKeptCurrent: the real provider, the real jwx cache, a real endpoint with
+// long-lived caching headers; interval 1 s; the published key is replaced; within a few intervals
+// the provider must hand out the new key and no longer the withdrawn one.
+func nativeC02FetchedKeySetKeptCurrent() {
+	var mu sync.Mutex
+	doc := vn.JWKSDoc("good")
+	srv := httptest.NewServer(http.HandlerFunc(func(w http.ResponseWriter, r *http.Request) {
+		mu.Lock()
+		defer mu.Unlock()
+		w.Header().Set("Cache-Control", "max-age=3600")
+		w.Header().Set("Content-Type", "application/json")
+		_, _ = w.Write([]byte(doc))
+	}))
+	defer srv.Close()
+	f := &oidcv1.OIDCConfig{ClientId: "a", JwksConfig: &oidcv1.OIDCConfig_JwksFetcher{JwksFetcher: &oidcv1.OIDCConfig_JwksFetcherConfig{JwksUri: srv.URL, PeriodicFetchIntervalSec: 1}}}
+	cfg := &configv1.Config{Chains: []*configv1.FilterChain{{Name: "a", Filters: []*configv1.Filter{{Type: &configv1.Filter_Oidc{Oidc: f}}}}}}
+	ctx, cancel := context.WithCancel(context.Background())
+	defer cancel()
+	p := NewJWKSProvider(cfg, internal.NewTLSConfigPool(ctx))
+	go func() { _ = p.ServeContext(ctx) }()
+	same := func(set jwk.Set, name string) bool {
+		jb, _ := json.Marshal(set)
+		return string(jb) == vn.JWKSDoc(name)
+	}
+	got, err := p.Get(ctx, f)
+	vn.Assert("C02/fetched-key-set-is-the-filter's-own:first", vn.And(err == nil, got != nil && same(got, "good")))
+	mu.Lock()
+	doc = vn.JWKSDoc("other")
+	mu.Unlock()
+	current := false
+	for i := 0; i < 12 && !current; i++ {
+		time.Sleep(500 * time.Millisecond)
+		got, err = p.Get(ctx, f)
+		current = err == nil && got != nil && same(got, "other")
+	}
+	vn.Assert("C02/fetched-key-set-kept-current:first", current)
+	vn.Cover("C02/fetcher-audited", true)
 }
